@@ -5,7 +5,6 @@ package main
 
 import (
 	"fmt"
-	"sort"
 	"strings"
 )
 
@@ -445,14 +444,35 @@ func (d *Decls) Script(assumps []*Term, goal *Term, wantModel bool) string {
 			}
 			s := map[string]bool{}
 			collectSyms(ax.T, s)
+			// A GROUND axiom about particular constants (a string literal's length,
+			// a type tag's value, a package-level value) is relevant only when one
+			// of THOSE constants occurs; a quantified axiom when one of its
+			// functions or constants occurs. (Without the first rule every literal's axiom is
+			// pulled in through the shared function symbol.)
 			hit := false
+			hasConst, constHit := false, false
 			for k := range s {
-				if used[k] && !builtinOps[k] {
-					if _, ok := d.funs[k]; ok {
-						hit = true
-						break
-					}
+				if builtinOps[k] {
+					continue
 				}
+				f, ok := d.funs[k]
+				if !ok {
+					continue
+				}
+				if len(f.Args) == 0 {
+					hasConst = true
+					if used[k] {
+						constHit = true
+					}
+				} else if used[k] {
+					hit = true
+				}
+			}
+			if hasConst && ax.T.Op != "forall" && ax.T.Op != "exists" {
+				// ground fact about particular constants
+				hit = constHit
+			} else if constHit {
+				hit = true
 			}
 			if hit {
 				inc[ax] = true
@@ -466,41 +486,94 @@ func (d *Decls) Script(assumps []*Term, goal *Term, wantModel bool) string {
 			}
 		}
 	}
-	var sb strings.Builder
-	if wantModel {
-		sb.WriteString("(set-option :produce-models true)\n")
-	}
-	sb.WriteString("(set-logic ALL)\n")
-	for _, s := range d.sorts {
-		fmt.Fprintf(&sb, "(declare-sort %s 0)\n", s)
-	}
-	for _, dt := range d.dts {
-		fmt.Fprintf(&sb, "(declare-datatypes ((%s 0)) (((%s", dt.Name, dt.Ctor)
-		for _, f := range dt.Fields {
-			fmt.Fprintf(&sb, " (%s %s)", f.Name, f.Sort)
-		}
-		sb.WriteString("))))\n")
-	}
-	names := make([]string, 0, len(used))
-	for k := range used {
-		names = append(names, k)
-	}
-	sort.Strings(names)
+	// body first: function declarations, axioms, assumptions, goal
+	var body strings.Builder
 	// keep registry order for determinism
 	for _, n := range d.funOrd {
 		if !used[n] {
 			continue
 		}
 		f := d.funs[n]
-		fmt.Fprintf(&sb, "(declare-fun %s (%s) %s)\n", f.Name, strings.Join(f.Args, " "), f.Ret)
+		fmt.Fprintf(&body, "(declare-fun %s (%s) %s)\n", f.Name, strings.Join(f.Args, " "), f.Ret)
 	}
 	for _, ax := range axs {
-		fmt.Fprintf(&sb, "(assert %s) ; axiom %s\n", ax.T, ax.Name)
+		fmt.Fprintf(&body, "(assert %s) ; axiom %s\n", ax.T, ax.Name)
 	}
 	for _, a := range assumps {
-		fmt.Fprintf(&sb, "(assert %s)\n", a)
+		fmt.Fprintf(&body, "(assert %s)\n", a)
 	}
-	fmt.Fprintf(&sb, "(assert (not %s))\n", goal)
+	fmt.Fprintf(&body, "(assert (not %s))\n", goal)
+	bodyText := body.String()
+	// Only the sorts and datatypes the body mentions (directly, or through the
+	// fields of a mentioned datatype) are declared: the registry accumulates the
+	// types of every unit verified before, and a preamble of a thousand unused
+	// declarations slows the solvers by an order of magnitude.
+	tok := map[string]bool{}
+	addToks := func(text string) {
+		start := -1
+		for i := 0; i <= len(text); i++ {
+			c := byte(' ')
+			if i < len(text) {
+				c = text[i]
+			}
+			if c == ' ' || c == '(' || c == ')' || c == '\n' || c == '\t' {
+				if start >= 0 {
+					tok[text[start:i]] = true
+					start = -1
+				}
+			} else if start < 0 {
+				start = i
+			}
+		}
+	}
+	addToks(bodyText)
+	incDT := map[*DataType]bool{}
+	for changed := true; changed; {
+		changed = false
+		for _, dt := range d.dts {
+			if incDT[dt] {
+				continue
+			}
+			hit := tok[dt.Name] || tok[dt.Ctor]
+			if !hit {
+				for _, f := range dt.Fields {
+					if tok[f.Name] {
+						hit = true
+						break
+					}
+				}
+			}
+			if hit {
+				incDT[dt] = true
+				changed = true
+				tok[dt.Name] = true
+				for _, f := range dt.Fields {
+					addToks(f.Sort)
+				}
+			}
+		}
+	}
+	var sb strings.Builder
+	if wantModel {
+		sb.WriteString("(set-option :produce-models true)\n")
+	}
+	sb.WriteString("(set-logic ALL)\n")
+	for _, s := range d.sorts {
+		if tok[s] {
+			fmt.Fprintf(&sb, "(declare-sort %s 0)\n", s)
+		}
+	}
+	for _, dt := range d.dts {
+		if !incDT[dt] {
+			continue
+		}
+		fmt.Fprintf(&sb, "(declare-datatypes ((%s 0)) (((%s", dt.Name, dt.Ctor)
+		for _, f := range dt.Fields {
+			fmt.Fprintf(&sb, " (%s %s)", f.Name, f.Sort)
+		}
+		sb.WriteString("))))\n")
+	}
+	sb.WriteString(bodyText)
 	sb.WriteString("(check-sat)\n")
 	if wantModel {
 		sb.WriteString("(get-model)\n")
